@@ -17,8 +17,9 @@ META = {
         "(amount×price + fees + offset) ÷ amount up to renaming parameters↔fields (all leaf bijections are tried; they are "
         "compared with each other, not with a frozen formula), and every ledger function that prices shares calls the accessor. "
         "R3 (PROV): the cost offset handed to add_acquisition in the day loop is the pre-pass entry at the same transaction "
-        "index that identifies the lot; pooling adds to pool.total_cost the cost returned for the pooled quantity. Does not "
-        "decide the sum identity over a history."),
+        "index that identifies the lot; pooling adds to pool.total_cost the cost returned for the pooled quantity. R4: the "
+        "ledger's same-day consumption averages with ONE weight per lot — Σ(w × unit cost) ÷ Σ(w) with w the lot's availability — "
+        "so the cost attributed is the cost of the shares actually debited. Does not decide the sum identity over a history."),
     "trusted_base": ["rust_decimal arithmetic is exact enough that equal terms denote equal values", "rustc MIR + resolution"],
 }
 
@@ -271,8 +272,65 @@ def offsets_prov(R, rep):
            f"pool.total_cost is also written by {extra} / increased by {sorted(adders)}", "", key="R3:pool.total_cost:writers")
 
 
+def same_day_weights(R, rep):
+    """R4: in the ledger's same-day consumption the average cost is Σ(w·unit cost) ÷ Σ(w) with ONE weight w per lot, and
+    that weight is the lot's availability (what can actually be consumed) — so cost attributed = cost of shares debited"""
+    F = R.F
+    sd = R.leg("SameDay")[0]
+    cons = [F.bodies[t["callee"]] for _, t in sd.calls() if t["callee"] in F.bodies and "AcquisitionLedger::" in t["callee"] and "Decimal" in F.bodies[t["callee"]].ret
+            and any(w[0].id == t["callee"] or (w[0].parent == t["callee"]) for w in R.field_writes(LOT, "consumed", None) if False) or
+            (t["callee"] in F.bodies and t["callee"].endswith("consume_shares_on_date"))]
+    # structural: the ledger method called by the same-day leg producer that returns a Decimal and (transitively) increases lot.consumed
+    cands = []
+    for _, t in sd.calls():
+        cb = F.bodies.get(t["callee"])
+        if cb is None or "Decimal" not in cb.ret or not cb.id.startswith("cgt_core::matcher::acquisition_ledger::AcquisitionLedger::"):
+            continue
+        if any(u["callee"].endswith("AcquisitionLot::consume") for _, u in cb.calls()):
+            cands.append(cb)
+    if len(cands) != 1:
+        rep.unresolved("R4", "SAMEDAY-CONSUME", f"{len(cands)} ledger methods consume lots and return a cost for the same-day rule")
+        return
+    b = cands[0]
+    tb = R.terms(b, 0)
+    acc = {}
+    for i, t in b.calls():
+        if is_decimal_arith_assign(t["callee"]) == "AddAssign":
+            r = root_of_operand(b, t["args"][0])
+            if r and not r[1] and b.local_name(r[0]):
+                acc.setdefault(b.local_name(r[0]), []).append(tb.operand(t["args"][1]))
+    ret = tb.local(0)
+    # ret = φ{ matched × (var:C / var:Q) | ZERO }
+    avg = None
+    for x in subterms(ret):
+        if isinstance(x, tuple) and x and x[0] == "/" and isinstance(x[1], tuple) and x[1][0] == "var" and isinstance(x[2], tuple) and x[2][0] == "var":
+            avg = x
+    if avg is None:
+        rep.ob("R4", f"{b.short}:average", False, f"same-day cost is {show(ret)[:100]} — not matched × (Σcost ÷ Σquantity)", b.loc(), key="R4:same-day:average-shape")
+        return
+    cname, qname = avg[1][1], avg[2][1]
+    wq = acc.get(qname, [])
+    wc = acc.get(cname, [])
+    ok_q = len(wq) == 1 and isinstance(wq[0], tuple) and wq[0][0] == "call" and wq[0][1].endswith("AcquisitionLot::available")
+    rep.ob("R4", f"{b.short}:weight=availability", ok_q,
+           "the divisor of the same-day average sums each lot's AVAILABLE shares" if ok_q else
+           f"the divisor `{qname}` accumulates {[show(w)[:50] for w in wq]} — not the lots' availability: cost is averaged over shares that cannot be consumed",
+           b.loc(), key="R4:same-day:divisor-weight")
+    ok_c = ok_q and len(wc) == 1 and isinstance(wc[0], tuple) and wc[0][0] == "*" and wq[0] in wc[0][1] and \
+        any(isinstance(x, tuple) and x[0] == "call" and x[1].endswith("AcquisitionLot::adjusted_unit_cost") for x in wc[0][1])
+    rep.ob("R4", f"{b.short}:cost=Σ(weight×unit)", ok_c,
+           "the numerator sums availability × the lot's unit-cost accessor (same weight as the divisor)" if ok_c else
+           f"the numerator `{cname}` accumulates {[show(w)[:70] for w in wc]} — not (the divisor's weight) × unit cost: the same-day leg is priced with cost of shares it does not consume",
+           b.loc(), key="R4:same-day:numerator-weight")
+    # lots are debited in proportion to the same weight
+    cons_calls = [(i, t) for i, t in b.calls() if t["callee"].endswith("AcquisitionLot::consume")]
+    rep.ob("R4", f"{b.short}:debits-lots", len(cons_calls) >= 1, "and the lots are debited inside the same function" if cons_calls else "no lot is debited", b.loc(),
+           key="R4:same-day:debit")
+
+
 def run(ctx, rep):
     R = Roles(ctx.F)
     pair_costs(R, rep)
+    same_day_weights(R, rep)
     sibling_unit_cost(R, rep)
     offsets_prov(R, rep)
